@@ -80,6 +80,9 @@ CRASH_SHAPES = [
     "SELECT IF(NULL, 1, 2) AS v FROM t",
     "SELECT ELEMENTAT(arr, -1) AS v FROM t",
     "SELECT SUBSTR(s, 5, 100) AS v FROM t",
+    "SELECT VF_EXT(a) AS v, ASYNC.VF_EXT(s) AS w, VF_EXT() AS z FROM t",
+    "SELECT VF_EXT_FAIL(a) AS v FROM t",
+    "SELECT a, ASYNC.VF_EXT_FAIL(a) AS v, SPIN.VF_EXT_FAIL(a) FROM t WHERE VF_EXT(a) = a",
     "SELECT a FROM t ORDER BY nokey.deep",
     "SELECT a FROM t GROUP BY arr",
     "SELECT a FROM t LIMIT 99999999999999999999",
@@ -134,6 +137,11 @@ def explore(chk, rnd, tier):
             kind = "mutated"
         opts = rnd.randint(0, 7)
         r["wrapped"], r["pg"], r["arr"] = bool(opts & 1), bool(opts & 2), bool(opts & 4)
+        # the CompletedCallback option: a callback that counts, or one that panics (a panic of the caller's own callback is
+        # the caller's to see as an error, not a crash of the process)
+        cb = rnd.choice(["", "", "count", "panic"])
+        if cb:
+            r["completedCb"] = cb
         reqs.append(r)
         kinds.append(kind)
     alpha = list("SELCTFROMWH abcxt*,.'\"`()[]<->=1234\n") + ["SELECT ", " FROM t", "é", "\x00", "UNION ", "\\"]
@@ -146,6 +154,9 @@ def explore(chk, rnd, tier):
         for opts in range(8):
             reqs.append({"op": "query", "doc": enc_val(doc), "sql": s, "wrapped": bool(opts & 1), "pg": bool(opts & 2),
                          "arr": bool(opts & 4), "vars": {} if "VAR" in s else None})
+            kinds.append("shape")
+        for cb in ("count", "panic"):
+            reqs.append({"op": "query", "doc": enc_val(doc), "sql": s, "completedCb": cb, "vars": {} if "VAR" in s else None})
             kinds.append("shape")
     # malformed / mutated path selectors inside otherwise valid queries, interleaved with valid ones in the same
     # process: a failed selector must not leave anything behind (lock, cache entry) that stops a later query
